@@ -410,3 +410,52 @@ pub fn body_has_nested_diff_switch(body: &[SNode]) -> bool {
     visit_stmts(body, 0, &mut |s, _| { for e in stmt_exprs(&s.kind) { if expr_has_nested_diff_switch(e, false) { found = true; } } });
     found
 }
+
+/// Register ids mentioned in code that certainly survives to lowering: outside ternaries with a constant
+/// condition and outside difficulty switches of difficulty-labelled statements.
+pub fn mentioned_regs_live(body: &[SNode]) -> std::collections::BTreeSet<i32> {
+    fn has_var(e: &Expr) -> bool { let mut f = false; e.visit_vars(&mut |_| f = true); f }
+    fn walk(e: &Expr, labelled: bool, out: &mut std::collections::BTreeSet<i32>) {
+        match e {
+            Expr::Var(v) | Expr::PreDec(v) => { if let Some(id) = v.var.reg_id() { out.insert(id); } }
+            Expr::Bin(_, a, b) => { walk(a, labelled, out); walk(b, labelled, out); }
+            Expr::Un(_, a) => walk(a, labelled, out),
+            Expr::Ternary(c, a, b) => { walk(c, labelled, out); if has_var(c) { walk(a, labelled, out); walk(b, labelled, out); } }
+            Expr::DiffSwitch(cs) => { if !labelled { for c in cs.iter().flatten() { walk(c, labelled, out); } } }
+            _ => {}
+        }
+    }
+    fn go(body: &[SNode], labelled: bool, out: &mut std::collections::BTreeSet<i32>) {
+        for s in body {
+            let l = labelled || s.diff.is_some();
+            for e in stmt_exprs(&s.kind) { walk(e, l, out); }
+            match &s.kind {
+                Stmt::Assign { var, .. } => { if let Some(id) = var.var.reg_id() { out.insert(id); } }
+                Stmt::Times { clobber: Some(v), .. } => { if let Some(id) = v.var.reg_id() { out.insert(id); } }
+                _ => {}
+            }
+            match &s.kind {
+                Stmt::If { arms, els } => { for (_, _, b) in arms { go(b, l, out); } if let Some(e) = els { go(e, l, out); } }
+                Stmt::While { body, .. } | Stmt::DoWhile { body, .. } | Stmt::Times { body, .. } | Stmt::Loop { body } | Stmt::Block(body) => go(body, l, out),
+                _ => {}
+            }
+        }
+    }
+    let mut out = std::collections::BTreeSet::new();
+    go(body, false, &mut out);
+    out
+}
+
+pub fn stmt_has_reg_in_diff_switch(s: &Stmt) -> bool {
+    fn walk(e: &Expr, inside: bool) -> bool {
+        match e {
+            Expr::Var(v) | Expr::PreDec(v) => inside && v.var.reg_id().is_some(),
+            Expr::Bin(_, a, b) => walk(a, inside) || walk(b, inside),
+            Expr::Un(_, a) => walk(a, inside),
+            Expr::Ternary(c, a, b) => walk(c, inside) || walk(a, inside) || walk(b, inside),
+            Expr::DiffSwitch(cs) => cs.iter().flatten().any(|c| walk(c, true)),
+            _ => false,
+        }
+    }
+    stmt_exprs(s).into_iter().any(|e| walk(e, false))
+}
